@@ -215,7 +215,7 @@ func c09Run(c *Ctx) {
 	}
 	// 4. random long texts mixing multi-line strings and comments
 	r := c.Rand("long")
-	n := c.N(15000, 300000)
+	n := c.N(15000, 2000000)
 	pieces := append([]string{}, A...)
 	pieces = append(pieces, "/*/ x */", "/***/", "/**/", "/* * / */", "/*//*/", "//*", "/*\n*/", "/* \" */", "\"/*\"", "//", "/*", "*/", "\"x\ny\"", "/* c\nc */", "// c\n", "abc", "12.5", "১২.৩", "==", "!=", "<=", ">=", "<<", ">>", "**", "&&", "||", "1.", ".5", "1..2", "a.b", "\n\n")
 	pieces = append(pieces, kws...)
